@@ -7,9 +7,9 @@ class C28(Spec):
     harness = "h_c28"
     lean_deps = ("C25", "C27", "C20")
     required_theorems = ("C28.chain_tx_unexpired_fee_chainid", "C28.chain_tx_signed",
-                         "C28.chain_tx_signed_regression_old_preExec", "C28.chain_tx_unique_partial",
+                         "C28.chain_tx_signed_regression_old_preExec", "C28.chain_tx_unique", "C28.txheight_window_cached",
                          "C28.produced_block_clean")
-    partial = ("C28.chain_tx_unique_partial",)
+    partial = ()
     refuted = ()
     quick_timeout = 900
     thorough_timeout = 5400
@@ -19,8 +19,10 @@ class C28(Spec):
                   "lookup through the tx index / the TxHeight window cache; executor checkTx: expiry at block height/time, fee, "
                   "chain id; tx root; state root; consensus check): for ANY sequence of deliveries (valid or not, any order, "
                   "reorganisations) and mempool events, every transaction on the best chain is unexpired and passes fee and "
-                  "chain-id checks (chain_tx_unexpired_fee_chainid); no transaction hash occurs twice and the tx index is "
-                  "exact (chain_tx_unique_partial: no TxHeight transactions, one body per block hash); every transaction is "
+                  "chain-id checks (chain_tx_unexpired_fee_chainid); no transaction hash occurs twice on the best chain, TxHeight "
+                  "transactions and tampered bodies included (chain_tx_unique, FULL: from the invariant that the running "
+                  "TxHeight cache contains the last hi+lo blocks' transactions across connect / disconnect / reorganize / "
+                  "restart, txheight_window_cached; hypotheses: Hash() covers Expire, Block.Hash covers parent and height); every transaction is "
                   "correctly signed, assuming only that the mempool admits verified transactions — re-insertion by "
                   "mempool.delBlock is covered by the proof (chain_tx_signed, full); what the "
                   "node keeps of a body offered to its own block production is duplicate-free, unexpired and fee/chain-id "
@@ -40,7 +42,7 @@ class C28(Spec):
                   "re-derived from the real transactions by the harness; mempool admission itself is C22's subject (the "
                   "harness only submits admissible transactions); the mempool's block events are applied synchronously in "
                   "the model (generated cases do not depend on EventDelBlock timing); transaction groups and para-chain "
-                  "transactions are not generated; TxHeight uniqueness is tied and scanned but not proved.")
+                  "transactions are not generated.")
     assumptions = (
         "same model and assumptions as C27 (chain control flow), execution verdict = Model/C27.lean preExec over oracle inputs",
         "mempool block events (EventAddBlock/EventDelBlock) take effect before the next block is executed",
